@@ -996,12 +996,14 @@ func (s *SetStartingBlockHeightAction) Execute(services *SwapServices, swap *Swa
 	onchain, _, validator, err := services.getOnChainServices(swap.GetChain())
 	if err != nil {
 		swap.LastErr = err
+		swap.LastErrString = err.Error()
 		return Event_ActionFailed
 	}
 
 	now, err := onchain.GetBlockHeight()
 	if err != nil {
 		swap.LastErr = err
+		swap.LastErrString = err.Error()
 		return Event_ActionFailed
 	}
 
@@ -1011,10 +1013,12 @@ func (s *SetStartingBlockHeightAction) Execute(services *SwapServices, swap *Swa
 		policy, err := swap.getTimelockPolicy()
 		if err != nil {
 			swap.LastErr = err
+			swap.LastErrString = err.Error()
 			return Event_ActionFailed
 		}
 		if err := checkPaymentWindow(swap, now, policy); err != nil {
 			swap.LastErr = err
+			swap.LastErrString = err.Error()
 			swap.CancelMessage = err.Error()
 			return Event_ActionFailed
 		}
@@ -1026,6 +1030,7 @@ func (s *SetStartingBlockHeightAction) Execute(services *SwapServices, swap *Swa
 		swap.StartingBlockHeight = now
 	} else if now >= swap.StartingBlockHeight+(validator.GetCSVHeight()/2) {
 		swap.LastErr = fmt.Errorf("too close to csv")
+		swap.LastErrString = swap.LastErr.Error()
 		swap.CancelMessage = swap.LastErr.Error()
 		return Event_ActionFailed
 	}
